@@ -33,7 +33,8 @@ func main() {
 	evid := flag.String("evidence", "", "write evidence JSON here")
 	verbose := flag.Bool("v", false, "verbose")
 	dump := flag.String("dump", "", "dump the query of the obligation with this name")
-	extra := flag.String("extra", "", "comma-separated extra module dirs to load (rendered parsers)")
+	extra := flag.String("extra", "", "comma-separated extra module dirs to load")
+	rendered := flag.String("rendered", "", "directory with rendered parsers (output of the injected render test)")
 	replayDir := flag.String("replays", "/verif/replays", "where replay files go")
 	harnessDir := flag.String("harness", "/verif/harness", "run-time contract harnesses (bounded search for failing inputs)")
 	knownPath := flag.String("known", "/verif/known_findings.txt", "known findings file")
@@ -44,7 +45,7 @@ func main() {
 	t0 := time.Now()
 
 	v := &Verifier{fset: token.NewFileSet(), pkgs: map[string]*packages.Package{}, repoPkgs: map[string]bool{}, funcs: map[string]*FuncUnit{}, byObj: map[*types.Func]*FuncUnit{},
-		cs: &ContractSet{Funcs: map[string]*Contract{}}, fieldOwner: map[*types.Var]string{}}
+		cs: &ContractSet{Funcs: map[string]*Contract{}}, fieldOwner: map[*types.Var]string{}, cells: map[string]*types.Var{}, renderTag: map[string]string{}}
 	cfg := &packages.Config{Mode: packages.NeedName | packages.NeedFiles | packages.NeedSyntax | packages.NeedTypes | packages.NeedTypesInfo | packages.NeedImports | packages.NeedDeps,
 		Dir: *repo, BuildFlags: []string{"-tags=verif"}, Fset: v.fset}
 	pkgs, err := packages.Load(cfg, "./...")
@@ -70,19 +71,116 @@ func main() {
 			os.Exit(3)
 		}
 	}
-	loadS := time.Since(t0).Seconds()
-
-	timeout := 25
-	if *tier == "thorough" {
-		timeout = 90
-	}
 	if *work == "" {
 		d, _ := os.MkdirTemp("", "govc")
 		*work = d
 		defer os.RemoveAll(d)
 	}
 	os.MkdirAll(*work, 0o755)
+	var renderObls []*Obligation
+	if *rendered != "" {
+		builderPkg := ""
+		for pth := range v.pkgs {
+			if strings.HasSuffix(pth, "/Builder") {
+				builderPkg = pth
+			}
+		}
+		rvs, _, err := v.loadRendered(*rendered, filepath.Join(*repo, "Builder", "driver_contracts_verif.go"), *work)
+		if err != nil {
+			fmt.Printf("UNDECIDED-BINDING: %v\n", err)
+			os.Exit(3)
+		}
+		// representative per tag set: the first rendering (preferring the "ladd" grammar) that type-checks
+		// (an example written for the global API does not compile in -o mode and vice versa); all others must have
+		// identical static function text
+		reps := map[string]*renderedVariant{}
+		repPkgs := map[string][]*packages.Package{}
+		tagKey := func(rv *renderedVariant) string { return strings.Join(sortedKeys(rv.Tags), "+") }
+		sort.SliceStable(rvs, func(i, j int) bool {
+			li, lj := strings.HasPrefix(rvs[i].Name, "ladd"), strings.HasPrefix(rvs[j].Name, "ladd")
+			if li != lj {
+				return li
+			}
+			return rvs[i].Name < rvs[j].Name
+		})
+		for _, rv := range rvs {
+			k := tagKey(rv)
+			if _, ok := reps[k]; ok {
+				continue
+			}
+			c2 := *cfg
+			c2.Dir = rv.Dir
+			ps, err := packages.Load(&c2, ".")
+			if err != nil || len(ps) == 0 || len(ps[0].Errors) > 0 {
+				continue
+			}
+			reps[k] = rv
+			repPkgs[k] = ps
+		}
+		for _, rv := range rvs {
+			rep := reps[tagKey(rv)]
+			for _, sh := range rv.Shape {
+				renderObls = append(renderObls, &Obligation{Func: "rendered." + rv.Name, Name: "rendered." + rv.Name + "/shape:" + sanitize(trunc(sh, 40)), Kind: "shape", Goal: "false", Status: "failed", Src: sh, Solver: "extraction", Output: sh})
+			}
+			if len(rv.Shape) == 0 {
+				renderObls = append(renderObls, &Obligation{Func: "rendered." + rv.Name, Name: "rendered." + rv.Name + "/shape:reduce-cases", Kind: "shape", Goal: "true", Status: "proved", Src: "every rendered reduce case has the schematic shape (lhs id; Dollar window; user action; pop of the same size)", Solver: "extraction"})
+			}
+			if rv != rep {
+				same := true
+				diff := ""
+				for k, txt := range rep.Static {
+					if rv.Static[k] != txt {
+						same = false
+						diff = k
+					}
+				}
+				if len(rv.Static) != len(rep.Static) {
+					same = false
+					diff = "set of static functions"
+				}
+				o := &Obligation{Func: "rendered." + rv.Name, Name: "rendered." + rv.Name + "/same-static-text-as:" + rep.Name, Kind: "shape", Goal: "true", Status: "proved", Solver: "extraction",
+					Src: "static driver functions of this rendering are textually identical to the verified representative " + rep.Name}
+				if !same {
+					o.Status, o.Goal, o.Output = "failed", "false", "function "+diff+" differs"
+					o.Src += " — differs in: " + diff
+				}
+				renderObls = append(renderObls, o)
+			}
+		}
+		for _, rv := range rvs {
+			if reps[tagKey(rv)] == nil {
+				fmt.Printf("UNDECIDED-BINDING: no rendering with tags %s type-checks\n", tagKey(rv))
+				os.Exit(3)
+			}
+		}
+		for _, k := range sortedKeys(reps) {
+			rv := reps[k]
+			ps := repPkgs[k]
+			if err := v.addPackages(ps); err != nil {
+				fmt.Printf("UNDECIDED-BINDING: rendered %s: %v\n", rv.Name, err)
+				os.Exit(3)
+			}
+			for _, p := range ps {
+				tg := "goCode"
+				if rv.Tags["goObject"] {
+					tg = "goObject"
+				}
+				if rv.Tags["packed"] {
+					tg += "+packed"
+				} else {
+					tg += "+unpacked"
+				}
+				v.renderTag[p.PkgPath] = tg
+				v.cs.instantiate(builderPkg, p.PkgPath, rv.Tags)
+			}
+		}
+	}
+	loadS := time.Since(t0).Seconds()
 
+	timeout := 25
+	if *tier == "thorough" {
+		timeout = 90
+	}
 	var results []*FuncResult
 	ctxOf := map[*Obligation]*Ctx{}
 	var all []*Obligation
@@ -92,7 +190,7 @@ func main() {
 		if *prop != "" && !hasProp(con.Props, *prop) {
 			continue
 		}
-		if con.Trusted {
+		if con.Trusted || con.Template != "" {
 			continue
 		}
 		cu := v.funcs[k]
@@ -116,6 +214,9 @@ func main() {
 	}
 	// lemmas
 	for _, lm := range v.cs.Lemmas {
+		if lm.Template != "" {
+			continue
+		}
 		if *prop != "" && !hasProp(lm.Props, *prop) {
 			continue
 		}
@@ -126,6 +227,14 @@ func main() {
 		results = append(results, r)
 		for _, o := range r.Obls {
 			ctxOf[o] = r.Ctx
+			all = append(all, o)
+		}
+	}
+	if len(renderObls) > 0 {
+		rr := &FuncResult{Unit: "rendered (extraction checks)", Obls: renderObls, Ctx: NewCtx()}
+		results = append(results, rr)
+		for _, o := range renderObls {
+			ctxOf[o] = rr.Ctx
 			all = append(all, o)
 		}
 	}
